@@ -337,7 +337,10 @@ class SimStreams:
             errs = ['%s: %s' % (type(ex).__name__, str(ex)[:100])]
         chk.case(('sim-convergence', netlist_toks(cpts), integ, shape), nontrivial=True)
         chk.count('sim_convergence', '%s/%s/%s' % (tmpl, integ, shape))
-        tol = (0.01 if integ == 'trap' else 0.06) * max(top, 1e-9)
+        # step 0 of cct.sim is all zero (no initial-value problem): with a source that jumps at t = 0 the first trapezoidal step uses
+        # i(0) = 0 instead of i(0+), an O(h) error that persists: first-order convergence, like backward Euler
+        jumps = any(tm[0] != 'dc' and tm[0] != 0 for tm in src)
+        tol = (0.01 if integ == 'trap' and not jumps else 0.06) * max(top, 1e-9)
         ok = len(errs) == 3 and errs[2] <= tol and (errs[2] <= 0.7 * errs[0] or errs[0] <= 1e-9 * max(top, 1.0))
         self.ho('sim-convergence', ok, {'netlist': netlist_toks(cpts), 'integrator': integ, 'grid_shape': shape, 'component': target,
                                         'max_abs_error_for_N_40_80_160': errs, 'tolerance': tol, 'scale': top})
@@ -359,7 +362,9 @@ class SimStreams:
     def check_resp_bilinear(self, i):
         chk, rng, drv, np = self.chk, self.rng, self.drv, self.L.np
         method, alpha = rng.choice([('bilinear', Fraction(1, 2)), ('tustin', Fraction(1, 2)), ('backward-euler', Fraction(1)), ('backward-diff', Fraction(1)),
-                                    ('gbf', Fraction(1, 4)), ('gbf', Fraction(3, 4)), ('trapezoidal', Fraction(1, 2))])
+                                    ('gbf', Fraction(5, 8)), ('gbf', Fraction(3, 4)), ('trapezoidal', Fraction(1, 2))])
+        # alpha < 1/2 is left to the convergence stream: those filters are unstable for stiff poles and amplify the rounding
+        # of the float recursion beyond any fixed tolerance against exact rationals
         nd = rng.choice([1, 2, 2])
         den = [Fraction(rng.randint(1, 6), rng.choice([1, 2])) for _ in range(nd)] + [Fraction(1)]
         num = [Fraction(rng.randint(-4, 4) or 1, rng.choice([1, 2])) for _ in range(rng.randint(1, nd + 1))]
@@ -395,6 +400,12 @@ class SimStreams:
         chk.count('resp_outcome', 'agree' if ok else 'differ')
         if not ok:
             self.disagree('respBilinear', dict(inp, lcapy=[float(v) for v in real][:8], model=reply[:160]))
+            # the Lean model with the DOCUMENTED alpha of the method (bilinear_coeffs_value: the substitution
+            # s = (1/dt)(1 - 1/z)/(alpha + (1 - alpha)/z)) is also the Spec for the real output
+            self.counter['n'] += 1
+            chk.counterexample({'kind': 'response', 'what': 'bilinear-family', 'method': method},
+                               dict(input=inp, lcapy=[float(v) for v in real], spec='lfilter of the alpha = %s substitution: %s' % (fstr(alpha), reply[:300])),
+                               'response(method=%s) is not the difference equation of the documented substitution' % method)
 
     def check_resp_ii(self, i):
         """impulse invariance with a POLYNOMIAL kernel: H = q0 + c0/s + c1/s^2 (+ 2 c2/s^3), h(t) = (c0 + c1 t + c2 t^2) u(t):
@@ -409,6 +420,12 @@ class SimStreams:
         N = rng.randint(6, 12)
         t0 = Fraction(rng.choice([0, -3, -1, 2, 5, 1, -6, 4])) * dt
         x = [Fraction(rng.randint(-8, 8), rng.choice([1, 2, 4])) for _ in range(N)]
+        self.run_resp_ii(kern, q0, dt, t0, x)
+
+    def run_resp_ii(self, kern, q0, dt, t0, x):
+        chk, drv, L, np = self.chk, self.drv, self.L, self.L.np
+        s_ = L.vars['s'].sympy
+        N = len(x)
         e = L.R(q0) + sum(L.R(c) * math.factorial(k) / s_ ** (k + 1) for k, c in enumerate(kern))
         H = L.lcapy.transfer(L.lcapy.expr(e))
         tv = np.array([float(t0 + k * dt) for k in range(N)])
@@ -633,3 +650,304 @@ class SimStreams:
                                         lcapy={'is_causal': flagged, 'evaluate': str(rn), 'subs': str(rs)}, spec='specEval = %s at the regular point %s' % (sp, fstr(xq))),
                                    'the causal assumption survives an operation that makes the signal non-zero at negative times: evaluate() differs from the exact value')
                 break
+
+    # ------------------------------------------------------------------------------------------- J. fallbacks at zeros of a denominator
+    def check_fallback(self, i):
+        """p(t)/q(t) with a common zero of chosen multiplicities at a dyadic point x0: scalar (Python float), NumPy scalar,
+        list and ndarray arguments.  Model: `lim.eval` (which fallback, which value).  Oracle: the returned number is the
+        value of exact substitution into the cancelled expression; list/ndarray agree element-wise with the scalar call."""
+        chk, rng, drv, L, sym, np = self.chk, self.rng, self.drv, self.L, self.L.sym, self.L.np
+        vname = ['t', 's', 'f', 'omega'][i % 4]
+        v = L.vars[vname].sympy
+        x0 = Fraction(rng.choice([1, -2, 3, 0, 1, -1, 5]), rng.choice([1, 1, 2, 4]))
+        kp, kq = rng.choice([(1, 1), (2, 1), (1, 2), (2, 2), (0, 1), (0, 2), (1, 0), (1, 1)])
+
+        def pol(avoid):
+            while True:
+                cs = [Fraction(rng.randint(-4, 4)) for _ in range(rng.randint(1, 3))]
+                if cs[-1] == 0:
+                    cs[-1] = Fraction(1)
+                if sum(c * avoid ** k for k, c in enumerate(cs)) != 0:
+                    return cs
+
+        def pmul(a, b):
+            out = [Fraction(0)] * (len(a) + len(b) - 1)
+            for ia, ca in enumerate(a):
+                for ib, cb in enumerate(b):
+                    out[ia + ib] += ca * cb
+            return out
+        p, q = pol(x0), pol(x0)
+        den = x0.denominator
+        lin = [Fraction(-x0.numerator), Fraction(den)]       # den * t - num: integer coefficients, exact in floats
+        for _ in range(kp):
+            p = pmul(p, lin)
+        for _ in range(kq):
+            q = pmul(q, lin)
+        P = sum(L.R(c) * v ** k for k, c in enumerate(p))
+        Q = sum(L.R(c) * v ** k for k, c in enumerate(q))
+        e = sym.Mul(P, sym.Pow(Q, -1))
+        if not e.has(v):
+            chk.count('degenerate', 'variable-simplified-away')
+            return
+        fn_, fd_ = sym.fraction(e)
+        if sym.expand(fn_ * Q - fd_ * P) != 0 or sym.expand(fd_ - Q) not in (0,) and sym.expand(fd_ + Q) != 0:
+            # SymPy cancelled a monomial factor while the quotient was built: Lcapy holds a different object from the model's
+            chk.count('degenerate', 'quotient-restructured-by-sympy')
+            return
+        E = L.lcapy.expr(e)
+        if vname == 't' and E.is_causal:
+            return
+        ps, qs = ','.join(map(fstr, p)), ','.join(map(fstr, q))
+        inp = {'stream': 'fallback', 'var': vname, 'expr': str(e), 'p': ps, 'q': qs, 'x0': fstr(x0), 'multiplicity': [kp, kq]}
+        exact = sym.cancel(e).subs(v, L.R(x0))
+        calls = []
+        orig_limit, orig_simplify = sym.Expr.limit, sym.simplify
+
+        def w_limit(self_, *a, **k):
+            calls.append('limit')
+            return orig_limit(self_, *a, **k)
+
+        def w_simplify(*a, **k):
+            calls.append('simplify')
+            return orig_simplify(*a, **k)
+        results = {}
+        for form, arg, py in (('python-float', float(x0), 1), ('numpy-scalar', np.float64(float(x0)), 0), ('python-complex', complex(float(x0), 0.0), 1)):
+            del calls[:]
+            sym.Expr.limit, sym.simplify = w_limit, w_simplify
+            try:
+                rn = L.numeric(E, arg)
+            finally:
+                sym.Expr.limit, sym.simplify = orig_limit, orig_simplify
+            trace = list(calls)
+            if rn[0] == 'timeout':
+                chk.count('degenerate', 'sympy-timeout')
+                return
+            results[form] = rn
+            m = drv.ask1('lim.eval %d %s %s %s' % (py, ps, qs, fstr(x0)))
+            path, _, out = m.partition(' ')
+            chk.case(('fallback', str(e), vname, fstr(x0), form), nontrivial=True)
+            chk.count('fallback_path', '%s/%s' % (form, path))
+            want_trace = {'direct': [], 'zerodiv': ['limit'], 'nan': ['limit'], 'inf': ['simplify', 'limit']}[path]
+            if out == 'other' and path in ('zerodiv', 'nan'):
+                want_trace = ['limit', 'simplify', 'limit']
+            chk.coverage['correspondence']['compared'] += 1
+            if out.startswith('val'):
+                r = Fraction(out.split()[1])
+                ok = rn[0] == 'val' and abs(rn[1] - complex(float(r))) <= 1e-9 * max(1.0, abs(float(r)))
+            else:
+                ok = rn[0] in ('inf', 'err', 'nan')
+            if not ok or trace != want_trace:
+                self.disagree('evalRatfun', dict(inp, form=form, lcapy=str(rn), lcapy_fallbacks=trace, model=m, model_fallbacks=want_trace))
+            # oracle: a number returned at a removable singularity is the value of exact substitution into the cancelled expression
+            if rn[0] == 'val' and exact.is_Rational:
+                ex = Fraction(int(exact.p), int(exact.q))
+                if abs(rn[1] - complex(float(ex))) > 1e-9 * max(1.0, abs(float(ex))):
+                    self.counter['n'] += 1
+                    chk.counterexample({'kind': 'fallback', 'what': 'wrong-limit-value', 'repeated_root': min(kp, kq) >= 2, 'form': form},
+                                       dict(input=dict(inp, form=form), lcapy=str(rn), lcapy_fallbacks=trace, spec='cancelled expression at x0: %s' % fstr(ex)),
+                                       'evaluate() at a removable singularity is not the value of the simplified expression')
+            elif rn[0] == 'val' and not exact.is_finite:
+                self.counter['n'] += 1
+                chk.counterexample({'kind': 'fallback', 'what': 'wrong-limit-value', 'repeated_root': min(kp, kq) >= 2, 'form': form},
+                                   dict(input=dict(inp, form=form), lcapy=str(rn), lcapy_fallbacks=trace, spec='a pole: no finite value'),
+                                   'evaluate() returns a finite number at a pole')
+        # list / ndarray: element-wise the scalar results, through the other fallback
+        x1 = x0 + Fraction(1, 2)
+        r1 = L.numeric(E, float(x1))
+        for form, arg in (('list', [float(x0), float(x1)]), ('ndarray', np.array([float(x1), float(x0)])), ('tuple', (float(x0), float(x0)))):
+            chk.case(('fallback', str(e), vname, fstr(x0), form), nontrivial=True)
+            try:
+                with self.time_limit(30):
+                    arr = [complex(z) for z in np.atleast_1d(E.evaluate(arg))]
+                st = 'array'
+            except self.Timeout:
+                chk.count('degenerate', 'sympy-timeout')
+                continue
+            except Exception as ex:   # noqa
+                arr, st = type(ex).__name__, 'error'
+            order = {'list': ['python-float', None], 'ndarray': [None, 'python-float'], 'tuple': ['python-float', 'python-float']}[form]
+            scal = [results['python-float'] if o else r1 for o in order]
+            bad = None
+            if st == 'array':
+                for a, r in zip(arr, scal):
+                    if r[0] == 'val' and not abs(a - r[1]) <= 1e-12 * max(1.0, abs(r[1])):
+                        bad = 'element %r differs from the scalar result %r' % (a, r[1])
+                    if r[0] == 'inf' and not (math.isinf(a.real) or math.isinf(a.imag)):
+                        bad = 'element %r where the scalar call gives inf' % (a,)
+            elif all(r[0] in ('val', 'inf') for r in scal):
+                bad = 'raises %s although every scalar call returns' % arr
+            chk.count('fallback_array', '%s/%s' % (form, 'ok' if not bad else 'differs'))
+            if bad:
+                self.counter['n'] += 1
+                chk.counterexample({'kind': 'array', 'form': form}, dict(input=dict(inp, stream='fallback-array', form=form, xs=[fstr(x0), fstr(x1)]), lcapy=str(arr)[:200], scalar=[str(r) for r in scal], spec=bad),
+                                   'array evaluation at a removable singularity does not agree element-wise with scalar evaluation')
+
+    def check_complex_array(self, i):
+        """H(s) on a 1-D array of points j w (broadcasting over the array), against element-wise scalar evaluation (exactly) and
+        the exact Gaussian-rational value (1e-9)"""
+        chk, rng, L, sym, np = self.chk, self.rng, self.L, self.L.sym, self.L.np
+        vname = ['s', 'jomega', 'z'][i % 3]
+        v = L.vars['s' if vname != 'z' else 'z'].sympy
+        num = sum(L.R(Fraction(rng.randint(-4, 4), rng.choice([1, 2]))) * v ** k for k in range(rng.randint(1, 3)))
+        den = v ** 2 + L.R(Fraction(rng.randint(1, 5))) * v + L.R(Fraction(rng.randint(1, 9)))
+        e = num / den
+        if not e.has(v):
+            return
+        E = L.lcapy.expr(e)
+        ws = [Fraction(rng.randint(-16, 16), rng.choice([1, 2, 4])) for _ in range(4)]
+        pts = [complex(0.0, float(w)) for w in ws]
+        chk.case(('complex-array', str(e), tuple(fstr(w) for w in ws)), nontrivial=True)
+        try:
+            with self.time_limit(30):
+                arr = [complex(z) for z in np.atleast_1d(E.evaluate(np.array(pts)))]
+                scal = [complex(E.evaluate(p_)) for p_ in pts]
+        except self.Timeout:
+            chk.count('degenerate', 'sympy-timeout')
+            return
+        except Exception as ex:   # noqa
+            self.ho('complex-array-j-omega', False, {'expr': str(e), 'points': [fstr(w) for w in ws], 'error': '%s: %s' % (type(ex).__name__, str(ex)[:80])})
+            return
+        ok = True
+        for w, a, sc in zip(ws, arr, scal):
+            ref = complex(sym.N(sym.simplify(e.subs(v, sym.I * L.R(w))), 30))
+            # NumPy's and CPython's complex division round differently in the last place: a few ulp, not bit equality
+            if abs(a - sc) > 1e-14 * max(1.0, abs(sc)) or abs(a - ref) > 1e-9 * max(1.0, abs(ref)):
+                ok = False
+        self.ho('complex-array-j-omega', ok, {'expr': str(e), 'points': ['j*' + fstr(w) for w in ws], 'array': str(arr)[:200], 'scalar': str(scal)[:200]})
+
+    # ------------------------------------------------------------------------------------------- K. floats
+    def float_program(self, expr, var):
+        """the return expression of the function lambdify generates for `expr` (same module list as Expr.evaluate), as prefix
+        tokens of FloatEval.FE; None if it is not a straight-line + - * / program"""
+        import ast
+        import inspect
+        import struct
+        sym = self.L.sym
+        f = sym.lambdify(var, expr, [{}, 'scipy', 'numpy', 'math', 'sympy'])
+        src = inspect.getsource(f)
+        ret = [ln.strip() for ln in src.splitlines() if ln.strip().startswith('return ')]
+        if len(ret) != 1:
+            return None, src
+        tree = ast.parse(ret[0][len('return '):], mode='eval').body
+        bits = lambda x: struct.unpack('<Q', struct.pack('<d', float(x)))[0]   # noqa
+
+        def go(n):
+            if isinstance(n, ast.Name) and n.id == str(var):
+                return ['x']
+            if isinstance(n, ast.Constant) and isinstance(n.value, (int, float)) and not isinstance(n.value, bool):
+                if isinstance(n.value, int) and abs(n.value) >= 2 ** 53:
+                    raise ValueError('big int')
+                return ['c:%d' % bits(n.value)]
+            if isinstance(n, ast.BinOp) and type(n.op) in (ast.Add, ast.Sub, ast.Mult, ast.Div):
+                # int (op) int is computed by Python in integers: only a true division of two literals can occur, where
+                # float(a)/float(b) is the same correctly rounded quotient
+                return [{ast.Add: 'add', ast.Sub: 'sub', ast.Mult: 'mul', ast.Div: 'div'}[type(n.op)]] + go(n.left) + go(n.right)
+            if isinstance(n, ast.UnaryOp) and isinstance(n.op, ast.USub):
+                return ['neg'] + go(n.operand)
+            raise ValueError(type(n).__name__)
+        try:
+            return go(tree), src
+        except ValueError:
+            return None, src
+
+    def float_table(self, n):
+        """rows (program, argument bits, bits evaluate() returned) for the kernel-checked table; no driver needed"""
+        import struct
+        rng, L, sym = self.rng, self.L, self.L.sym
+        bits = lambda x: struct.unpack('<Q', struct.pack('<d', float(x)))[0]   # noqa
+        rows = []
+        tries = 0
+        while len(rows) < n and tries < 10 * n:
+            tries += 1
+            v = L.vars[['t', 'f', 's', 'omega'][tries % 4]].sympy
+            e = L.R(Fraction(rng.randint(1, 9), rng.choice([1, 2, 3, 7])))
+            for _ in range(rng.randint(1, 3)):
+                e = sym.Add(L.R(Fraction(rng.randint(-9, 9) or 2, rng.choice([1, 2, 5]))), sym.Mul(v, e, evaluate=False), evaluate=False)
+            d = sym.Add(L.R(Fraction(rng.randint(1, 9))), sym.Mul(v, v, evaluate=False), evaluate=False)
+            E = L.lcapy.expr(sym.Mul(e, sym.Pow(d, -1, evaluate=False), evaluate=False))
+            if not E.sympy.has(v):
+                continue
+            prog, _ = self.float_program(E.sympy, v)
+            if prog is None:
+                continue
+            x = rng.uniform(-8, 8)
+            try:
+                r = E.evaluate(x)
+            except Exception:   # noqa
+                continue
+            if isinstance(r, complex) or math.isnan(r) or math.isinf(r):
+                continue
+            rows.append((prog, bits(x), bits(r)))
+        return rows
+
+    def check_float(self, i, table):
+        """evaluate() of a rational function in Horner form at float points == Lean Float run of lambdify's program, bit for bit"""
+        import struct
+        chk, rng, drv, L, sym = self.chk, self.rng, self.drv, self.L, self.L.sym
+        vname = ['t', 'f', 's', 'omega', 'z'][i % 5]
+        v = L.vars[vname].sympy
+
+        def horner(n):
+            e = L.R(Fraction(rng.randint(-9, 9) or 1, rng.choice([1, 1, 2, 3, 5, 7])))
+            for _ in range(n):
+                e = sym.Add(L.R(Fraction(rng.randint(-9, 9) or 2, rng.choice([1, 2, 3, 4, 10]))), sym.Mul(v, e, evaluate=False), evaluate=False)
+            return e
+        num, den = horner(rng.randint(1, 4)), horner(rng.randint(1, 3))
+        e = sym.Mul(num, sym.Pow(den, -1, evaluate=False), evaluate=False)
+        E = L.lcapy.expr(e)
+        if not E.sympy.has(v) or (vname == 't' and E.is_causal):
+            return
+        prog, src = self.float_program(E.sympy, v)
+        if prog is None:
+            chk.count('float_tests', 'not-straight-line')
+            return
+        bits = lambda x: struct.unpack('<Q', struct.pack('<d', float(x)))[0]   # noqa
+        pts = [rng.uniform(-4, 4), rng.uniform(-1e3, 1e3), rng.uniform(-1, 1) * 1e-3, float(rng.randint(-50, 50)) / 7.0, rng.uniform(1e5, 1e9),
+               float(Fraction(rng.randint(-64, 64), 16))]
+        for x in pts:
+            chk.case(('float', str(e), repr(x)), nontrivial=True)
+            try:
+                r = E.evaluate(x)
+            except Exception as ex:   # noqa
+                chk.count('float_tests', 'evaluate-raises')
+                continue
+            if isinstance(r, complex) or math.isnan(r) or math.isinf(r):
+                chk.count('float_tests', 'non-finite')
+                continue
+            got = bits(r)
+            m = drv.ask1('flt.run %d %s' % (bits(x), ' '.join(prog)))
+            chk.count('float_tests', 'bit-identical' if str(got) == m else 'DIFFERENT')
+            if str(got) != m:
+                self.counter['n'] += 1
+                chk.counterexample({'kind': 'float', 'what': 'straight-line'}, dict(input={'stream': 'float', 'expr': str(e), 'x': repr(x), 'xbits': bits(x), 'program': ' '.join(prog),
+                                                                                            'lambdify_source': src}, lcapy={'value': repr(r), 'bits': got}, spec='Lean Float run of the program: bits %s' % m),
+                                   'evaluate() at a float point is not the correctly rounded straight-line evaluation of the lambdified code')
+            elif len(table) < 24 and x == pts[0]:
+                table.append((prog, bits(x), got))
+
+
+def fe_lean(prog):
+    """prefix tokens -> Lean term of FloatEval.FE"""
+    toks_ = list(prog)
+
+    def go():
+        t = toks_.pop(0)
+        if t == 'x':
+            return '.x'
+        if t.startswith('c:'):
+            return '(.c %s)' % t[2:]
+        if t == 'neg':
+            return '(.neg %s)' % go()
+        a = go()
+        b = go()
+        return '(.%s %s %s)' % (t, a, b)
+    return go()
+
+
+def float_table_text(rows):
+    out = ['/- GENERATED by harness/c17.py (stream K) -- do not edit.  (program, argument bits, bits returned by Lcapy\'s evaluate()) -/',
+           'import Lcapy.Model.FloatEval', 'namespace Lcapy.Gen.FloatTests', 'open Lcapy.FloatEval',
+           'def table : List (FE × UInt64 × UInt64) := [']
+    out.append(',\n'.join('  (%s, %d, %d)' % (fe_lean(p), xb, rb) for p, xb, rb in rows))
+    out += [']', 'end Lcapy.Gen.FloatTests', '']
+    return '\n'.join(out)
